@@ -14,7 +14,7 @@ Local Open Scope N_scope.
 Inductive presence := Req | Opt | OptNE.   (* required / optional / optional, absent when empty *)
 
 Inductive schema :=
-| SUint (bits : N)                 (* unsigned integer < 2^bits *)
+| SUint (lim : N)                  (* unsigned integer < lim (lim <= 2^64) *)
 | SNint                            (* negative integer -1-n, n < 2^64 *)
 | SBytes (lo hi : N)               (* definite byte string, lo <= length <= hi *)
 | SText (hi : N)                   (* definite text string (UTF-8 bytes), length <= hi *)
@@ -30,6 +30,8 @@ Inductive schema :=
 | SInBytes (s : schema)            (* bytes .cbor s *)
 | SChoice (alts : clist)           (* alternatives told apart by the major type of the first byte *)
 | STagChoice (alts : clist)        (* #6.t_i(s_i): alternatives told apart by the tag number *)
+| SArrAny (s : schema)             (* array of s, definite (VAlt 0) or indefinite with break (VAlt 1): PlutusList *)
+| SBBytes                          (* bounded bytes: definite when <= 64 bytes, else indefinite with 64-byte chunks *)
 with slist := SNil | SCons (s : schema) (r : slist)
 with klist := KNil | KCons (key : N) (p : presence) (s : schema) (r : klist)
 with vlist := ANil | ACons (idx : N) (fs : slist) (r : vlist)
@@ -57,8 +59,24 @@ Definition first_major (s : schema) : option N :=
   | SUint _ => Some 0 | SNint => Some 1 | SBytes _ _ => Some 2 | SText _ => Some 3 | SBool => Some 7
   | SArr _ => Some 4 | SMap _ => Some 5 | SVar _ => Some 4 | SArrOf _ _ => Some 4 | SSetOf _ => Some 6
   | SMapOf _ _ _ _ => Some 5 | SNullable _ => None | STag _ _ => Some 6 | SInBytes _ => Some 2
-  | SChoice _ => None | STagChoice _ => Some 6
+  | SChoice _ => None | STagChoice _ => Some 6 | SArrAny _ => Some 4 | SBBytes => Some 2
   end.
+
+(* can an encoding start with a byte of major type 7 (so that it could be mistaken for a break)? *)
+Fixpoint has_disc (d : N) (alts : clist) : bool :=
+  match alts with CNil => false | CCons e _ r => (d =? e) || has_disc d r end.
+Definition may_start7 (s : schema) : bool :=
+  match s with
+  | SBool => true | SNullable _ => true | SChoice alts => has_disc 7 alts | _ => false
+  end.
+
+(* write_bounded_bytes: chunks of 64 bytes, each written as a definite byte string *)
+Fixpoint chunk64 (fuel : nat) (b : bytes) : list bytes :=
+  match fuel with
+  | O => []
+  | S f => match b with [] => [] | _ => firstn 64 b :: chunk64 f (skipn 64 b) end
+  end.
+Definition enc_chunk (c : bytes) : bytes := encode_head 2 (N.of_nat (length c)) ++ c.
 
 (* ---- encoder ---- *)
 Definition enc_uint (n : N) : bytes := encode_head 0 n.
@@ -97,6 +115,11 @@ Fixpoint enc (s : schema) (v : val) {struct s} : bytes :=
   | SInBytes s', v' => let b := enc s' v' in encode_head 2 (N.of_nat (length b)) ++ b
   | SChoice alts, VAlt i v' => enc_cl false alts i v'
   | STagChoice alts, VAlt i v' => enc_cl true alts i v'
+  | SArrAny s', VAlt O (VList l) => encode_head 4 (N.of_nat (length l)) ++ concat (map (enc s') l)
+  | SArrAny s', VAlt (S O) (VList l) => 159 :: concat (map (enc s') l) ++ [255]
+  | SBBytes, VBytes b =>
+      if N.of_nat (length b) <=? 64 then encode_head 2 (N.of_nat (length b)) ++ b
+      else 95 :: concat (map enc_chunk (chunk64 (length b) b)) ++ [255]
   | _, _ => []
   end
 with enc_sl (fs : slist) (l : list val) {struct fs} : bytes :=
@@ -147,7 +170,7 @@ Definition not_major7 (s : schema) : bool :=
 
 Fixpoint wfs (s : schema) : bool :=
   match s with
-  | SUint bits => bits <=? 64
+  | SUint lim => lim <=? two64
   | SNint | SBool => true
   | SBytes lo hi => hi <? two64
   | SText hi => hi <? two64
@@ -157,11 +180,13 @@ Fixpoint wfs (s : schema) : bool :=
   | SArrOf _ s' => wfs s'
   | SSetOf s' => wfs s'
   | SMapOf _ _ k v => wfs k && wfs v
-  | SNullable s' => wfs s' && not_major7 s'
+  | SNullable s' => wfs s' && negb (may_start7 s')
   | STag t s' => (t <? two64) && wfs s'
   | SInBytes s' => wfs s'
   | SChoice alts => wfs_cl false alts
   | STagChoice alts => wfs_cl true alts
+  | SArrAny s' => wfs s' && negb (may_start7 s')
+  | SBBytes => true
   end
 with wfs_sl (fs : slist) : bool :=
   match fs with SNil => true | SCons s r => wfs s && wfs_sl r end
@@ -204,7 +229,7 @@ Fixpoint sortedb (l : list bytes) : bool :=
 
 Fixpoint wfv (s : schema) (v : val) {struct s} : bool :=
   match s, v with
-  | SUint bits, VNat n => n <? 2 ^ bits
+  | SUint lim, VNat n => n <? lim
   | SNint, VNeg n => n <? two64
   | SBytes lo hi, VBytes b => bytes_okb b && (lo <=? N.of_nat (length b)) && (N.of_nat (length b) <=? hi)
   | SText hi, VText b => bytes_okb b && (N.of_nat (length b) <=? hi)
@@ -224,6 +249,9 @@ Fixpoint wfv (s : schema) (v : val) {struct s} : bool :=
   | SInBytes s', v' => wfv s' v' && (N.of_nat (length (enc s' v')) <? two64)
   | SChoice alts, VAlt i v' => wfv_cl alts i v'
   | STagChoice alts, VAlt i v' => wfv_cl alts i v'
+  | SArrAny s', VAlt O (VList l) => forallb (wfv s') l && (N.of_nat (length l) <? two64)
+  | SArrAny s', VAlt (S O) (VList l) => forallb (wfv s') l
+  | SBBytes, VBytes b => bytes_okb b
   | _, _ => false
   end
 with wfv_sl (fs : slist) (l : list val) {struct fs} : bool :=
@@ -276,9 +304,30 @@ Fixpoint dec_n {A} (p : parser A) (n : nat) : parser (list A) := fun bs =>
 Definition dec_counted {A} (p : parser A) (n : N) : parser (list A) := fun bs =>
   if N.of_nat (length bs) <? n then Err else dec_n p (N.to_nat n) bs.
 
+(* items until a break byte; fuel = length of the input + 1, and every step must make progress,
+   so the OutOfFuel branch is unreachable (lemma dec_until_break_fuel) *)
+Fixpoint dec_until_break {A} (p : parser A) (fuel : nat) : parser (list A) := fun bs =>
+  match fuel with
+  | O => OutOfFuel
+  | S f =>
+    match bs with
+    | [] => Err
+    | b :: r =>
+      if b =? 255 then Ok ([], r)
+      else let* '(x, r') := p bs in
+           if (length r' <? length bs)%nat then
+             let* '(xs, r'') := dec_until_break p f r' in Ok (x :: xs, r'')
+           else Err
+    end
+  end.
+(* one chunk of an indefinite byte string: definite, at most 64 bytes *)
+Definition dec_chunk : parser bytes := fun bs =>
+  let* '(n, r) := dec_head_m 2 bs in
+  if n <=? 64 then take_bytes n r else Err.
+
 Fixpoint dec (s : schema) {struct s} : parser val :=
   match s with
-  | SUint bits => fun bs => let* '(n, r) := dec_head_m 0 bs in if n <? 2 ^ bits then Ok (VNat n, r) else Err
+  | SUint lim => fun bs => let* '(n, r) := dec_head_m 0 bs in if n <? lim then Ok (VNat n, r) else Err
   | SNint => fun bs => let* '(n, r) := dec_head_m 1 bs in Ok (VNeg n, r)
   | SBytes lo hi => fun bs =>
       let* '(n, r) := dec_head_m 2 bs in
@@ -339,6 +388,22 @@ Fixpoint dec (s : schema) {struct s} : parser val :=
       end
   | STagChoice alts => fun bs =>
       let* '(t, r) := dec_head_m 6 bs in dec_cl alts t O r
+  | SArrAny s' => fun bs =>
+      match decode_head bs with
+      | Some (m, Arg n, r) =>
+          if m =? 4 then let* '(l, r') := dec_counted (dec s') n r in Ok (VAlt 0 (VList l), r') else Err
+      | Some (m, Indef, r) =>
+          if m =? 4 then let* '(l, r') := dec_until_break (dec s') (S (length r)) r in Ok (VAlt 1 (VList l), r') else Err
+      | None => Err
+      end
+  | SBBytes => fun bs =>
+      match decode_head bs with
+      | Some (m, Arg n, r) =>
+          if (m =? 2) && (n <=? 64) then let* '(b, r') := take_bytes n r in Ok (VBytes b, r') else Err
+      | Some (m, Indef, r) =>
+          if m =? 2 then let* '(cs, r') := dec_until_break dec_chunk (S (length r)) r in Ok (VBytes (concat cs), r') else Err
+      | None => Err
+      end
   end
 with dec_sl (fs : slist) {struct fs} : parser (list val) :=
   match fs with
